@@ -381,3 +381,54 @@ Fixpoint run_steps (revs : list tree) (steps : list (bool * nat)) (f : fs) : lis
 
 Definition run_case (revs : list tree) (steps : list (bool * nat)) : obs :=
   OL (run_steps revs steps fs_empty).
+
+(* ---------- cmd_upload.run: which upload is performed ---------- *)
+(* [parents]: for every commit (index = creation order) its left-hand parent.
+   graph.is_ancestor(prev_uploaded_rev_id, rev_id); NULL_REVISION (no marker) is
+   an ancestor of everything. *)
+Fixpoint is_ancestor (fuel : nat) (parents : list (option nat)) (j cur : nat) : bool :=
+  if Nat.eqb j cur then true
+  else match fuel with
+       | O => false
+       | S fuel' => match nth cur parents None with
+                    | Some p => is_ancestor fuel' parents j p
+                    | None => false
+                    end
+       end.
+
+Definition marker_rev (f : fs) : option nat :=
+  match look f [NMark] with
+  | Some (File [j] _) => Some (N.to_nat j)
+  | _ => None
+  end.
+
+(* a step: (revision to upload, --full, --overwrite).  Without --overwrite the
+   command refuses (DivergedUploadedTree, remote untouched) when the marker's
+   revision is not an ancestor; otherwise --full -> upload_full_tree, else
+   upload_tree (incremental from the MARKER's revision, also when diverged). *)
+Fixpoint run_cmd_steps (revs : list tree) (parents : list (option nat))
+         (steps : list (nat * bool * bool)) (f : fs) : list obs :=
+  match steps with
+  | [] => []
+  | (k, full, overwrite) :: steps' =>
+      let diverged := match marker_rev f with
+                      | Some j => negb (is_ancestor (List.length parents) parents j k)
+                      | None => false
+                      end in
+      if negb overwrite && diverged
+      then OL [OE "DivergedUploadedTree"%string; olisting f] :: run_cmd_steps revs parents steps' f
+      else
+        let prog := if full then upload_full (nth k revs empty_tree) (N.of_nat k)
+                    else upload_tree revs k f in
+        match run prog (ust0 f) with
+        | (u, None) => OL [OT "ok"; olisting (ufs u)] :: run_cmd_steps revs parents steps' (ufs u)
+        | (u, Some e) =>
+            if negb full && order_dependent revs k f
+            then [OL [OT "order-dependent"]]
+            else [OL [oerr e; olisting (ufs u)]]
+        end
+  end.
+
+Definition run_cmd_case (revs : list tree) (parents : list (option nat))
+           (steps : list (nat * bool * bool)) : obs :=
+  OL (run_cmd_steps revs parents steps fs_empty).
